@@ -520,6 +520,19 @@ def check_entry_points(fx, rep, rule):
                   expected="%s(<the given string>, self).map(DeobfuscatedSignature::new)" % jn)
 
 
+def check_both_impls(fx, rep, rule):
+    """the per-implementation rules of signature deobfuscation (used by C02 for mapper == cache)"""
+    prim = check_prim_table(fx, rep, rule)
+    rm = A.method(fx, A.MAPPER, "remap_class")
+    rc = A.method(fx, A.CACHE, "remap_class")
+    if prim and len(rm) == 1 and len(rc) == 1:
+        check_type_renderer(fx, rep, rule, "byte_code_type_to_java_type", rm[0], prim)
+        check_type_renderer(fx, rep, rule, "byte_code_type_to_java_type_cache", rc[0], prim)
+    check_assembly(fx, rep, rule, "deobfuscate_bytecode_signature", "byte_code_type_to_java_type")
+    check_assembly(fx, rep, rule, "deobfuscate_bytecode_signature_cache", "byte_code_type_to_java_type_cache")
+    check_entry_points(fx, rep, rule)
+
+
 def run(ctx, rep):
     fx = ctx.facts("")
     rep.configs.append("default")
@@ -546,5 +559,5 @@ def run(ctx, rep):
     for impl in ("mapper", "cache"):
         BR.check_class_header_arms(fx, rep, "C16.7", impl)
     LR.check_class_lookup(fx, rep, "C16.7")
-    n = R2.check_twins(fx, rep, "C16.5")
-    rep.floor("C16.5", n, 6, "twin pairs")
+    n = R2.check_twins(fx, rep, "C16.5", only=("deobfuscate_signature", "byte_code_type_to_java_type", "deobfuscate_bytecode_signature"))
+    rep.floor("C16.5", n, 3, "twin pairs")
